@@ -95,6 +95,20 @@ def gen_pt(rng, dim, profile="mixed", nan_xy=False):
         if dim >= 3:
             c[-1] = NO_DATA_BITS
         return c
+    if profile == "nanm":
+        # finite X/Y, every measure NaN, every height NaN too for half of the points: the ranges of such shapes are empty
+        c = gen_pt(rng, dim, "finite", nan_xy)
+        if dim >= 3:
+            c[-1] = 0x7FF8000000000000
+        if dim == 4 and rng.random() < 0.5:
+            c[2] = 0x7FF8000000000001
+        return c
+    if profile == "posm":
+        # finite X/Y, heights and measures in [5, 7]: ranges that do not contain 0
+        c = gen_pt(rng, dim, "finite", nan_xy)
+        for i in range(2, dim):
+            c[i] = f2b(5.0 + rng.randint(0, 8) / 4.0)
+        return c
     c = [gen_float(rng, nan_xy, profile), gen_float(rng, nan_xy, profile)]
     if dim == 4:
         c.append(gen_float(rng, True, profile))
